@@ -1,7 +1,7 @@
 (* C08: binary64 facts about UpdateSimpleMovingAvg, proved through Flocq's PrimFloat bridge.
    R_of x is the real value of a finite float; rnd is round-to-nearest-even into binary64. *)
 From Coq Require Import ZArith Reals Lra Lia Psatz Floats Uint63.
-From Flocq Require Import Core Plus_error BinarySingleNaN.
+From Flocq Require Import Core Plus_error Relative BinarySingleNaN.
 From Flocq Require PrimFloat.
 From F2G Require Import Go.GoFloat Model.Util Model.Sensor.
 Import Flocq.IEEE754.PrimFloat.
@@ -280,4 +280,120 @@ Proof.
   - exfalso. unfold Bleb in H. rewrite B2SF_Prim2B in H. vm_compute in H. discriminate.
   - split; [reflexivity|]. rewrite Bleb_correct in H; [|reflexivity|exact Fc].
     rewrite Rc in H. rewrite B2R_Babs in H. revert H. case Rle_bool_spec; intros; auto; discriminate.
+Qed.
+
+(* ------------------------------------------------------------------ contraction with rounding slack *)
+
+
+Definition uu : R := / 2 * bpow radix2 (- 53 + 1).
+Definition eta0 : R := / 2 * bpow radix2 (-1074).
+
+Lemma uu_bounds : 0 < uu <= / 1000000.
+Proof.
+  unfold uu. change (bpow radix2 (-53 + 1)) with (/ IZR (Z.pow_pos 2 52)).
+  assert (1000000 <= IZR (Z.pow_pos 2 52)) by (apply IZR_le; vm_compute; discriminate).
+  assert (0 < / IZR (Z.pow_pos 2 52) <= / 1000000).
+  { split; [apply Rinv_0_lt_compat; lra|apply Rinv_le_contravar; lra]. }
+  lra.
+Qed.
+
+Lemma eta0_pos : 0 < eta0.
+Proof. unfold eta0. pose proof (bpow_gt_0 radix2 (-1074)). lra. Qed.
+
+Lemma err_mul x : exists e h, Rabs e <= uu /\ Rabs h <= eta0 /\ rnd x = x * (1 + e) + h.
+Proof.
+  destruct (error_N_FLT radix2 (-1074) 53 eq_refl (fun z => negb (Z.even z)) x) as [e [h [He [Hh [_ E]]]]].
+  exists e, h. repeat split; auto.
+Qed.
+
+Lemma err_add x y : format x -> format y -> exists e, Rabs e <= uu /\ rnd (x + y) = (x + y) * (1 + e).
+Proof.
+  intros Fx Fy.
+  destruct (FLT_plus_error_N_ex radix2 (-1074) 53 (fun z => negb (Z.even z)) x y Fx Fy) as [e [He E]].
+  exists e. split; auto. apply Rle_trans with (1 := He).
+  fold uu. pose proof uu_bounds.
+  apply Rle_trans with (uu * / (1 + uu)); [apply Rle_refl|].
+  apply Rle_trans with (uu * 1); [|lra]. apply Rmult_le_compat_l; [lra|].
+  rewrite <- Rinv_1. apply Rinv_le_contravar; lra.
+Qed.
+
+Lemma p_abs_le A X r : format A -> format X -> 0 <= r <= 1/2 ->
+  Rabs (rnd (r * rnd (X - A))) <= Rabs (X - A).
+Proof.
+  intros FA FX Hr. destruct (Rle_or_lt A X) as [H|H].
+  - pose proof (part_le_diff A X r FA FX H Hr).
+    assert (0 <= rnd (r * rnd (X - A))).
+    { apply rnd_ge0. apply Rmult_le_pos; [lra|]. apply rnd_ge0. lra. }
+    rewrite !Rabs_pos_eq by lra. lra.
+  - assert (FA' : format (- A)) by now apply generic_format_opp.
+    assert (FX' : format (- X)) by now apply generic_format_opp.
+    pose proof (part_le_diff (- A) (- X) r FA' FX' ltac:(lra) Hr) as P.
+    replace (- X - - A) with (- (X - A)) in P by ring. rewrite rnd_opp in P.
+    replace (r * - rnd (X - A)) with (- (r * rnd (X - A))) in P by ring. rewrite rnd_opp in P.
+    assert (D : rnd (X - A) <= 0) by (rewrite <- rnd_0; apply rnd_le; lra).
+    assert (rnd (r * rnd (X - A)) <= 0) by (rewrite <- rnd_0; apply rnd_le; nra).
+    rewrite !Rabs_left1 by lra. lra.
+Qed.
+
+Lemma abs5 a b c d e : Rabs (a - b - c - d - e) <= Rabs a + Rabs b + Rabs c + Rabs d + Rabs e.
+Proof. unfold Rabs. repeat destruct Rcase_abs; lra. Qed.
+
+Lemma prod3 e0 e1 e2 : Rabs e0 <= uu -> Rabs e1 <= uu -> Rabs e2 <= uu ->
+  Rabs ((1 + e0) * (1 + e1) * (1 + e2) - 1) <= 4 * uu /\ Rabs ((1 + e1) * (1 + e2)) <= 2.
+Proof.
+  intros H0 H1 H2. pose proof uu_bounds as Hu.
+  apply Rabs_le_inv in H0, H1, H2.
+  assert (P1 : 1 - 2 * uu <= (1 + e0) * (1 + e1) <= 1 + 2.5 * uu) by nra.
+  assert (P2 : 1 - 2 * uu <= (1 + e1) * (1 + e2) <= 1 + 2.5 * uu) by nra.
+  split; apply Rabs_le; nra.
+Qed.
+
+Lemma contraction_R A X N r : format A -> format X -> 2 <= N -> r = rnd (1 / N) -> 0 <= r <= 1/2 ->
+  Rabs (X - rnd (A + rnd (r * rnd (X - A)))) <=
+  (1 - 1 / N) * Rabs (X - A) + 8 * uu * (Rabs A + Rabs X) + 2 * eta0.
+Proof.
+  intros FA FX HN Er Hr.
+  pose proof uu_bounds as Hu. pose proof eta0_pos as He.
+  assert (Heu : eta0 <= uu).
+  { unfold eta0, uu. apply Rmult_le_compat_l; [lra|]. apply bpow_le. lia. }
+  set (U := X - A).
+  destruct (err_add X (- A) FX (generic_format_opp _ _ _ FA)) as [e1 [He1 Ed]].
+  replace (X + - A) with U in Ed by (unfold U; ring).
+  destruct (err_mul (1 / N)) as [e0 [h0 [He0 [Hh0 Err]]]]. rewrite <- Er in Err.
+  destruct (err_mul (r * rnd U)) as [e2 [h2 [He2 [Hh2 Ep]]]].
+  assert (Fp : format (rnd (r * rnd U))) by (apply generic_format_round; auto with typeclass_instances).
+  destruct (err_add A (rnd (r * rnd U)) FA Fp) as [e3 [He3 Es]].
+  pose proof (p_abs_le A X r FA FX Hr) as Hp. fold U in Hp.
+  set (p := rnd (r * rnd U)) in *.
+  destruct (prod3 e0 e1 e2 He0 He1 He2) as [HE HF].
+  set (E := (1 + e0) * (1 + e1) * (1 + e2) - 1) in *.
+  set (F := (1 + e1) * (1 + e2)) in *.
+  assert (Ep' : p = U / N * (1 + E) + h0 * U * F + h2).
+  { rewrite Ep, Ed, Err. unfold E, F, Rdiv. ring. }
+  rewrite Es.
+  replace (X - (A + p) * (1 + e3)) with (U - p - (A + p) * e3) by (unfold U; ring).
+  replace (U - p) with (U * (1 - 1 / N) - U / N * E - h0 * U * F - h2) by (rewrite Ep'; unfold Rdiv; ring).
+  eapply Rle_trans; [apply abs5|].
+  rewrite !Rabs_mult.
+  assert (HU : Rabs U <= Rabs A + Rabs X).
+  { unfold U. replace (X - A) with (X + - A) by ring. eapply Rle_trans; [apply Rabs_triang|]. rewrite Rabs_Ropp. lra. }
+  assert (HAp : Rabs (A + p) <= 2 * (Rabs A + Rabs X)).
+  { eapply Rle_trans; [apply Rabs_triang|]. pose proof (Rabs_pos X). pose proof (Rabs_pos A). lra. }
+  assert (HN1 : Rabs (1 - 1 / N) = 1 - 1 / N).
+  { apply Rabs_pos_eq. assert (0 < / N <= / 2) by (split; [apply Rinv_0_lt_compat; lra|apply Rinv_le_contravar; lra]). lra. }
+  assert (HUN : Rabs (U / N) <= (Rabs A + Rabs X) / 2).
+  { unfold Rdiv. rewrite Rabs_mult. rewrite (Rabs_pos_eq (/ N)) by (apply Rlt_le, Rinv_0_lt_compat; lra).
+    assert (0 < / N <= / 2) by (split; [apply Rinv_0_lt_compat; lra|apply Rinv_le_contravar; lra]).
+    pose proof (Rabs_pos U). nra. }
+  rewrite HN1.
+  pose proof (Rabs_pos U). pose proof (Rabs_pos A). pose proof (Rabs_pos X). pose proof (Rabs_pos (U / N)).
+  pose proof (Rabs_pos E). pose proof (Rabs_pos h0). pose proof (Rabs_pos F). pose proof (Rabs_pos (A + p)). pose proof (Rabs_pos e3).
+  set (S := Rabs A + Rabs X) in *.
+  assert (T2 : Rabs (U / N) * Rabs E <= S / 2 * (4 * uu)) by (apply Rmult_le_compat; lra).
+  assert (T3 : Rabs h0 * Rabs U * Rabs F <= eta0 * S * 2).
+  { apply Rmult_le_compat; try lra. apply Rmult_le_pos; lra. apply Rmult_le_compat; lra. }
+  assert (T5 : Rabs (A + p) * Rabs e3 <= 2 * S * uu) by (apply Rmult_le_compat; lra).
+  assert (T3' : eta0 * S * 2 <= uu * S * 2) by nra.
+  assert (0 <= uu * S) by (apply Rmult_le_pos; lra).
+  rewrite (Rmult_comm (Rabs U)). lra.
 Qed.
